@@ -121,6 +121,8 @@ func Main() {
 				o.PerCase = true
 			case "--list":
 				o.ListOnly = true
+			case "--stop-after":
+				o.StopAfter = next()
 			case "--tag":
 				o.Tag = next()
 			case "--skip":
